@@ -298,7 +298,7 @@ func (fa *FA) entailsPhiSplit(at ssa.Instruction, facts []Fact, a, b *Lin, depth
 				}
 				if ver >= 1000 && ver-1000 < len(fa.Fn.Blocks) {
 					mb := fa.Fn.Blocks[ver-1000]
-					if mb == at.Block() || mb.Dominates(at.Block()) {
+					if (mb == at.Block() || mb.Dominates(at.Block())) && !hasBackEdge(mb) {
 						ok := len(mb.Preds) > 0
 						for _, pr := range mb.Preds {
 							val := fa.memValueAtEnd(ld.Args[0], locClass(ld.Aux), pr, ld.T)
@@ -330,6 +330,10 @@ func (fa *FA) entailsPhiSplit(at ssa.Instruction, facts []Fact, a, b *Lin, depth
 			// len(phi) etc.: look one level down
 			if (s.Op == "len" || s.Op == "cap") && len(s.Args) == 1 && s.Args[0].Op == "phi" {
 				phi, _ = s.Args[0].V.(*ssa.Phi)
+				if phi != nil && hasBackEdge(phi.Block()) {
+					phi = nil
+					continue
+				}
 				if phi != nil {
 					// case split on the slice-valued phi: len(phi) == len(edge value)
 					ok := true
@@ -358,6 +362,12 @@ func (fa *FA) entailsPhiSplit(at ssa.Instruction, facts []Fact, a, b *Lin, depth
 		if !(phi.Block() == at.Block() || phi.Block().Dominates(at.Block())) {
 			continue
 		}
+		// a loop-header phi cannot be split: the value flowing in on the back edge (and the conditions holding on
+		// that edge) are expressed over the previous iteration's values of the loop's variables, the facts over
+		// the current ones — equating `i` with `i + 1` would make the facts contradictory and prove anything
+		if hasBackEdge(phi.Block()) {
+			continue
+		}
 		ok := true
 		for i, e := range phi.Edges {
 			ef := fa.edgeFacts(phi.Block().Preds[i], phi.Block())
@@ -370,6 +380,16 @@ func (fa *FA) entailsPhiSplit(at ssa.Instruction, facts []Fact, a, b *Lin, depth
 			}
 		}
 		if ok {
+			return true
+		}
+	}
+	return false
+}
+
+// hasBackEdge: some predecessor of b is dominated by b (b is a loop header).
+func hasBackEdge(b *ssa.BasicBlock) bool {
+	for _, p := range b.Preds {
+		if p == b || b.Dominates(p) {
 			return true
 		}
 	}
